@@ -1,0 +1,254 @@
+//! Canonical text dumps of the tokenizer output and of the untyped syntax tree.
+//!
+//! `dump_tokens(src)` lists the token kinds (with the lexeme for variable-length
+//! tokens); `dump_ast(src)` prints every statement the parser returns as an
+//! S-expression without spans, or the kind of the first parse error.
+
+use crate::ast::{BinaryOperator, Expression, Statement, StringPart, UnaryOperator};
+use crate::parser::{ParseErrorKind, parse};
+use crate::tokenizer::{TokenKind, TokenizerErrorKind, tokenize};
+
+/// Printable ASCII except space, quote, backslash and parentheses is kept;
+/// everything else is written as `\u{HEX}`.
+pub fn escape(s: &str) -> String {
+    let mut out = String::new();
+    for c in s.chars() {
+        if c.is_ascii_graphic() && !matches!(c, '"' | '\\' | '(' | ')') {
+            out.push(c);
+        } else {
+            out.push_str(&format!("\\u{{{:X}}}", c as u32));
+        }
+    }
+    out
+}
+
+fn leading_name(debug: &str) -> &str {
+    let end = debug
+        .find(|c: char| !(c.is_ascii_alphanumeric() || c == '_'))
+        .unwrap_or(debug.len());
+    &debug[..end]
+}
+
+fn tokenizer_error_name(kind: &TokenizerErrorKind) -> String {
+    leading_name(&format!("{kind:?}")).to_owned()
+}
+
+fn parse_error_name(kind: &ParseErrorKind) -> String {
+    match kind {
+        ParseErrorKind::TokenizerError(k) => format!("Tokenizer:{}", tokenizer_error_name(k)),
+        k => leading_name(&format!("{k:?}")).to_owned(),
+    }
+}
+
+pub fn dump_tokens(src: &str) -> String {
+    match tokenize(src, 0) {
+        Err(e) => format!("ERR {}", tokenizer_error_name(&e.kind)),
+        Ok(tokens) => {
+            let mut parts = vec![];
+            for t in &tokens {
+                let kind = format!("{:?}", t.kind);
+                match t.kind {
+                    TokenKind::Number
+                    | TokenKind::IntegerWithBase(_)
+                    | TokenKind::Identifier
+                    | TokenKind::UnicodeExponent
+                    | TokenKind::StringFixed
+                    | TokenKind::StringInterpolationStart
+                    | TokenKind::StringInterpolationMiddle
+                    | TokenKind::StringInterpolationSpecifiers
+                    | TokenKind::StringInterpolationEnd => {
+                        parts.push(format!("{}:{}", kind, escape(t.lexeme)))
+                    }
+                    _ => parts.push(kind),
+                }
+            }
+            parts.join(" ")
+        }
+    }
+}
+
+struct Dumper<'s> {
+    src: &'s str,
+    out: String,
+    values: Vec<u64>,
+}
+
+impl Dumper<'_> {
+    fn binop(op: BinaryOperator) -> &'static str {
+        use BinaryOperator::*;
+        match op {
+            Add => "add",
+            Sub => "sub",
+            Mul => "mul",
+            Div => "div",
+            Power => "pow",
+            ConvertTo => "conv",
+            LessThan => "lt",
+            GreaterThan => "gt",
+            LessOrEqual => "le",
+            GreaterOrEqual => "ge",
+            Equal => "eq",
+            NotEqual => "ne",
+            LogicalAnd => "and",
+            LogicalOr => "or",
+        }
+    }
+
+    fn expr(&mut self, e: &Expression) {
+        match e {
+            Expression::Scalar(span, n) => {
+                self.values.push(n.to_f64().to_bits());
+                let lexeme = self
+                    .src
+                    .get(span.start.as_usize()..span.end.as_usize())
+                    .unwrap_or("?");
+                if lexeme.is_ascii() {
+                    self.out
+                        .push_str(&format!("(num {})", escape(&lexeme.replace('_', ""))));
+                } else {
+                    // unicode exponents: the value is the only content
+                    self.out.push_str(&format!("(num ^{})", n.to_f64() as i64));
+                }
+            }
+            Expression::Identifier(_, name) => self.out.push_str(&format!("(id {})", escape(name))),
+            Expression::UnitIdentifier { full_name, .. } => self
+                .out
+                .push_str(&format!("(unitid {})", escape(full_name))),
+            Expression::TypedHole(_) => self.out.push_str("(hole)"),
+            Expression::UnaryOperator { op, expr, .. } => {
+                match op {
+                    UnaryOperator::Negate => self.out.push_str("(neg "),
+                    UnaryOperator::LogicalNeg => self.out.push_str("(not "),
+                    UnaryOperator::Factorial(n) => {
+                        self.out.push_str(&format!("(fact {} ", n.get()))
+                    }
+                }
+                self.expr(expr);
+                self.out.push(')');
+            }
+            Expression::BinaryOperator { op, lhs, rhs, .. } => {
+                self.out.push('(');
+                self.out.push_str(Self::binop(*op));
+                self.out.push(' ');
+                self.expr(lhs);
+                self.out.push(' ');
+                self.expr(rhs);
+                self.out.push(')');
+            }
+            Expression::FunctionCall { callable, args, .. } => {
+                self.out.push_str("(call ");
+                self.expr(callable);
+                for a in args {
+                    self.out.push(' ');
+                    self.expr(a);
+                }
+                self.out.push(')');
+            }
+            Expression::Boolean(_, b) => self.out.push_str(&format!("(bool {b})")),
+            Expression::String(_, parts) => {
+                self.out.push_str("(str");
+                for p in parts {
+                    self.out.push(' ');
+                    match p {
+                        StringPart::Fixed(s) => self.out.push_str(&format!("\"{}\"", escape(s))),
+                        StringPart::Interpolation {
+                            expr,
+                            format_specifiers,
+                            ..
+                        } => {
+                            self.out.push_str("(interp ");
+                            self.expr(expr);
+                            if let Some(f) = format_specifiers {
+                                self.out.push_str(&format!(" \"{}\"", escape(f)));
+                            }
+                            self.out.push(')');
+                        }
+                    }
+                }
+                self.out.push(')');
+            }
+            Expression::Condition {
+                condition,
+                then_expr,
+                else_expr,
+                ..
+            } => {
+                self.out.push_str("(if ");
+                self.expr(condition);
+                self.out.push(' ');
+                self.expr(then_expr);
+                self.out.push(' ');
+                self.expr(else_expr);
+                self.out.push(')');
+            }
+            Expression::InstantiateStruct { name, fields, .. } => {
+                self.out.push_str(&format!("(struct {}", escape(name)));
+                for (_, f, e) in fields {
+                    self.out.push_str(&format!(" ({} ", escape(f)));
+                    self.expr(e);
+                    self.out.push(')');
+                }
+                self.out.push(')');
+            }
+            Expression::AccessField {
+                expr, field_name, ..
+            } => {
+                self.out.push_str("(field ");
+                self.expr(expr);
+                self.out.push_str(&format!(" {})", escape(field_name)));
+            }
+            Expression::List(_, elements) => {
+                self.out.push_str("(list");
+                for e in elements {
+                    self.out.push(' ');
+                    self.expr(e);
+                }
+                self.out.push(')');
+            }
+        }
+    }
+
+    fn statement(&mut self, s: &Statement) {
+        match s {
+            Statement::Expression(e) => self.expr(e),
+            Statement::DefineVariable(_) => self.out.push_str("(stmt let)"),
+            Statement::DefineFunction { .. } => self.out.push_str("(stmt fn)"),
+            Statement::DefineDimension(..) => self.out.push_str("(stmt dimension)"),
+            Statement::DefineBaseUnit(..) => self.out.push_str("(stmt unit)"),
+            Statement::DefineDerivedUnit { .. } => self.out.push_str("(stmt unit)"),
+            Statement::ProcedureCall(_, _, args) => {
+                self.out.push_str("(stmt procedure");
+                for a in args {
+                    self.out.push(' ');
+                    self.expr(a);
+                }
+                self.out.push(')');
+            }
+            Statement::ModuleImport(..) => self.out.push_str("(stmt use)"),
+            Statement::DefineStruct { .. } => self.out.push_str("(stmt struct)"),
+        }
+    }
+}
+
+/// `OK <tree> ; <tree> … ;; <f64 bits of every numeric literal in order>` or
+/// `ERR <kind of the first error>`.
+pub fn dump_ast(src: &str) -> String {
+    match parse(src, 0) {
+        Ok(statements) => {
+            let mut d = Dumper {
+                src,
+                out: String::new(),
+                values: vec![],
+            };
+            for (i, s) in statements.iter().enumerate() {
+                if i > 0 {
+                    d.out.push_str(" ; ");
+                }
+                d.statement(s);
+            }
+            let values: Vec<String> = d.values.iter().map(|v| format!("{v:016x}")).collect();
+            format!("OK {} ;; {}", d.out, values.join(","))
+        }
+        Err((_, errors)) => format!("ERR {}", parse_error_name(&errors[0].kind)),
+    }
+}
